@@ -5,6 +5,7 @@
 package robust
 
 import (
+	"regexp"
 	"bytes"
 	"encoding/base64"
 	"encoding/json"
@@ -33,6 +34,8 @@ type Req struct {
 	Hdr    map[string]string `json:"hdr,omitempty"`
 	Body   []byte            `json:"body,omitempty"`
 	Note   string            `json:"note,omitempty"`
+	// Want: for a directed request, the status a valid request of this kind must get (0 = any well-formed answer)
+	Want int `json:"want,omitempty"`
 }
 
 func (r Req) String() string {
@@ -228,6 +231,10 @@ func (e *GcsEnv) Seed() {
 		b, ct := mp(fmt.Sprintf(`{"name":%q,"contentType":"text/plain","metadata":{"k":"v%d"}}`, n, i), "text/plain", []byte("content-"+n), "bnd", 0)
 		e.Do(Req{Method: "POST", Path: "/upload/storage/v1/b/bk/o", Query: "uploadType=multipart", Hdr: map[string]string{"Content-Type": ct}, Body: b})
 	}
+	// two objects whose names are not valid UTF-8 (legal byte strings; only a media upload can name them)
+	for _, n := range []string{"n%ff1", "n%ff2"} {
+		e.Do(Req{Method: "POST", Path: "/upload/storage/v1/b/bk/o", Query: "uploadType=media&name=" + n, Hdr: map[string]string{"Content-Type": "text/plain"}, Body: []byte("bytes")})
+	}
 	// an object that claims gzip encoding but is not gzip
 	b, ct := mp(`{"name":"notgz","contentEncoding":"gzip"}`, "text/plain", []byte("plain bytes"), "bnd", 0)
 	e.Do(Req{Method: "POST", Path: "/upload/storage/v1/b/bk/o", Query: "uploadType=multipart", Hdr: map[string]string{"Content-Type": ct}, Body: b})
@@ -386,13 +393,40 @@ func partText(method, path, body string, ct string) string {
 	return s + "\r\n" + body
 }
 
-// BatchParts are the (non-mutating) sub-requests whose batch responses must equal their stand-alone responses.
-var BatchParts = [][2]string{
-	{"GET", "/storage/v1/b/bk/o/a"}, {"GET", "/storage/v1/b/bk/o/missing"}, {"GET", "/storage/v1/b/nope/o/a"}, {"GET", "/storage/v1/b/bk/o?maxResults=0"},
-	{"GET", "/storage/v1/b/bk/o?maxResults=2"}, {"GET", "/storage/v1/b/bk/o/a?alt=media"}, {"GET", "/storage/v1/b/bk"}, {"DELETE", "/storage/v1/b/bk/o/missing"},
-	{"PATCH", "/storage/v1/b/bk/o/missing"}, {"GET", "/storage/v1/b/bk/o/a?ifGenerationMatch=x"}, {"POST", "/storage/v1/b/bk/o/missing/rewriteTo/b/bk/o/q"},
-	{"DELETE", "/storage/v1/b/bk/o/a"}, {"POST", "/storage/v1/b/bk/o/a.txt/rewriteTo/b/bk/o/a"}, {"DELETE", "/storage/v1/b/bk/o/a?ifGenerationMatch=1"},
+// BatchParts are the sub-requests (method, path with query, JSON body) whose batch responses — and
+// whose effect on the store — must equal what the same requests do when sent one by one.
+var BatchParts = [][3]string{
+	{"GET", "/storage/v1/b/bk/o/a", ""}, {"GET", "/storage/v1/b/bk/o/missing", ""}, {"GET", "/storage/v1/b/nope/o/a", ""}, {"GET", "/storage/v1/b/bk/o?maxResults=0", ""},
+	{"GET", "/storage/v1/b/bk/o?maxResults=2", ""}, {"GET", "/storage/v1/b/bk/o/a?alt=media", ""}, {"GET", "/storage/v1/b/bk", ""}, {"DELETE", "/storage/v1/b/bk/o/missing", ""},
+	{"PATCH", "/storage/v1/b/bk/o/missing", ""}, {"GET", "/storage/v1/b/bk/o/a?ifGenerationMatch=x", ""}, {"POST", "/storage/v1/b/bk/o/missing/rewriteTo/b/bk/o/q", ""},
+	{"DELETE", "/storage/v1/b/bk/o/a", ""}, {"POST", "/storage/v1/b/bk/o/a.txt/rewriteTo/b/bk/o/a", ""}, {"DELETE", "/storage/v1/b/bk/o/a?ifGenerationMatch=1", ""},
+	// parts that carry a body (each its own), and conditions in the query
+	{"PATCH", "/storage/v1/b/bk/o/a", `{"contentType":"x/one"}`},
+	{"PATCH", "/storage/v1/b/bk/o/a.txt", `{"contentType":"x/twotwo","metadata":{"m":"2"}}`},
+	{"POST", "/storage/v1/b/bk/o/cmp1/compose", `{"sourceObjects":[{"name":"a.txt"},{"name":"d/e"}],"destination":{"contentType":"c/1"}}`},
+	{"POST", "/storage/v1/b/bk/o/cmp2/compose", `{"sourceObjects":[{"name":"d/e"}],"destination":{"contentType":"c/22"}}`},
+	{"PATCH", "/storage/v1/b/bk/o/d/e?ifMetagenerationMatch=77", `{"contentType":"never/applied"}`},
+	{"DELETE", "/storage/v1/b/bk/o/a.txt?ifGenerationMatch=5", ""},
+	{"PATCH", "/storage/v1/b/bk/o/d/e?ifGenerationMatch=abc", `{}`},
+	{"DELETE", "/storage/v1/b/bk/o/d/e?ifGenerationNotMatch=0&ifMetagenerationNotMatch=1", ""},
 }
+
+func batchPartText(k int, absolute bool) string {
+	path, ct := BatchParts[k][1], ""
+	if absolute {
+		// the absolute form of the request target, as legal in a batch part as in any HTTP/1.1 request
+		path = "http://emu.test" + path
+	}
+	if BatchParts[k][2] != "" {
+		ct = "application/json"
+	}
+	return partText(BatchParts[k][0], path, BatchParts[k][2], ct)
+}
+
+var genRe = regexp.MustCompile(` gen=\d+`)
+
+// ContentSnapshot is Snapshot without the generations (timestamps: two services never agree on them).
+func (e *GcsEnv) ContentSnapshot() string { return genRe.ReplaceAllString(e.Snapshot(), "") }
 
 func genBatch(r *core.Rng) Req {
 	var buf bytes.Buffer
@@ -403,7 +437,7 @@ func genBatch(r *core.Rng) Req {
 		k := r.Intn(len(BatchParts))
 		idx = append(idx, fmt.Sprint(k))
 		h := map[string][]string{"Content-Type": {"application/http"}, "Content-ID": {fmt.Sprintf("<id+%d>", i)}}
-		txt := partText(BatchParts[k][0], BatchParts[k][1], "", "")
+		txt := batchPartText(k, r.Chance(1, 3))
 		switch r.Intn(8) {
 		case 0:
 			h["Content-Type"] = []string{"text/plain"}
@@ -432,7 +466,7 @@ func genBatch(r *core.Rng) Req {
 }
 
 // CheckBatch sends the given sub-requests in one well-formed batch and alone, and compares statuses.
-func CheckBatch(store string, ks []int) string {
+func CheckBatch(store string, ks []int, absolute []bool) string {
 	// two fresh, identically seeded services: one gets the batch, the other the same requests one by
 	// one in the same order (parts may change the store, so both must start from the same state)
 	e := NewGcsEnv(store)
@@ -445,7 +479,7 @@ func CheckBatch(store string, ks []int) string {
 	w := multipart.NewWriter(&buf)
 	for i, k := range ks {
 		pw, _ := w.CreatePart(map[string][]string{"Content-Type": {"application/http"}, "Content-ID": {fmt.Sprintf("<id+%d>", i)}})
-		pw.Write([]byte(partText(BatchParts[k][0], BatchParts[k][1], "", "")))
+		pw.Write([]byte(batchPartText(k, i < len(absolute) && absolute[i])))
 	}
 	w.Close()
 	ct := mime.FormatMediaType("multipart/mixed", map[string]string{"boundary": w.Boundary()})
@@ -481,10 +515,17 @@ func CheckBatch(store string, ks []int) string {
 		if len(pq) > 1 {
 			q = pq[1]
 		}
-		one := alone.Do(Req{Method: BatchParts[k][0], Path: pq[0], Query: q})
+		hdr := map[string]string{}
+		if BatchParts[k][2] != "" {
+			hdr["Content-Type"] = "application/json"
+		}
+		one := alone.Do(Req{Method: BatchParts[k][0], Path: pq[0], Query: q, Hdr: hdr, Body: []byte(BatchParts[k][2])})
 		if one.Code != got[i] {
 			return fmt.Sprintf("sub-response %d (%s %s) has status %d in the batch but %d when the same requests are sent one by one", i, BatchParts[k][0], BatchParts[k][1], got[i], one.Code)
 		}
+	}
+	if a, b := e.ContentSnapshot(), alone.ContentSnapshot(); a != b {
+		return "after the batch the store differs from the store after the same requests sent one by one:\n  batch: " + strings.ReplaceAll(a, "\n", " ; ") + "\n  alone: " + strings.ReplaceAll(b, "\n", " ; ")
 	}
 	return ""
 }
@@ -501,6 +542,9 @@ func (e *GcsEnv) JudgeGcs(r Req) (verdict string, res Result) {
 	}
 	if w := wellFormed(r, res); w != "" {
 		return "MALFORMED RESPONSE: " + w, res
+	}
+	if r.Want != 0 && res.Code != r.Want {
+		return fmt.Sprintf("VALID REQUEST REFUSED: answered %d, a request of this kind must be answered %d: %.200s", res.Code, r.Want, res.Body), res
 	}
 	after := e.Snapshot()
 	if strings.HasPrefix(after, "SNAPSHOT FAILED") {
@@ -527,6 +571,9 @@ func Directed() []Req {
 	j := map[string]string{"Content-Type": "application/json"}
 	nonUTF8, ct := mp("{\"name\":\"\xff\xfe\"}", "text/plain", []byte("x"), "bnd", 0)
 	return []Req{
+		{Method: "GET", Path: "/storage/v1/b/bk/o", Query: "maxResults=1&prefix=n%ff", Want: 200, Note: "first page of a listing that continues after a name that is not UTF-8"},
+		{Method: "GET", Path: "/storage/v1/b/bk/o", Query: "maxResults=1&prefix=n&pageToken=" + url.QueryEscape(tokenFor("n\xff1")), Want: 200, Note: "next page after a name that is not UTF-8"},
+		{Method: "GET", Path: "/storage/v1/b/bk/o", Query: "maxResults=1&delimiter=%ff", Note: "listing with a delimiter that is not UTF-8"},
 		{Method: "POST", Path: "/storage/v1/b/bk/o/dst/compose", Hdr: j, Body: []byte(`{"sourceObjects":[null]}`), Note: "compose with a null source"},
 		{Method: "POST", Path: "/storage/v1/b/bk/o/dst/compose", Hdr: j, Body: []byte(`{"sourceObjects":[{"name":"a"}]}`), Note: "compose without destination"},
 		{Method: "PATCH", Path: "/storage/v1/b/bk/o/a", Hdr: j, Body: []byte(`null`), Note: "patch with body null"},
